@@ -16,7 +16,7 @@ import threading
 
 import eliot
 from eliot import Action, FileDestination, add_destinations, current_action, log_message, preserve_context, remove_destination, start_action
-from eliot import _action
+from eliot import _action, _output
 from eliot._action import TooManyCalls
 from eliot.parse import Parser
 
@@ -34,7 +34,7 @@ RULE = ("part 'handoff': ProgGen programs whose remote nodes hand work (multi-ho
         "messages. part 'chain': 2-4 hops deep chains of preserved callables / continued tasks (each hop synchronous or on a joined thread) run as the "
         "only registered thread of a schedule: no hop blocks on something an earlier hop still holds (deadlock = violation), merged tape == "
         "ground truth. part 'rewrap' (sequential scenario): an already preserved callable preserved again under another action (both get their remote_task child, positions stay "
-        "1..n) and ids serialized after the action finished (unique, on fresh positions). part 'forkwrite': the worker is forked while another thread of the parent is parked inside its file destination's write(): the "
+        "1..n) and ids serialized after the action finished (unique, on fresh positions). part 'forkbuffering': the same while no destination exists yet and the other thread is inside a buffered logging call. part 'forkwrite': the worker is forked while another thread of the parent is parked inside its file destination's write(): the "
         "single-threaded child still continues the task into its own file (a child still stuck after 90 s as the only thread of its process "
         "counts as blocked for good). part 'subprocess': the id crosses to a fresh interpreter via argv. part 'race': one preserve_context callable "
         "invoked by 2-4 threads under the line-granular scheduler (LINE events on eliot/_action.py), ALL one-preemption schedules "
@@ -54,6 +54,7 @@ def plan(tier, seed):
     m = 400 if tier == "quick" else 8000
     specs += [{"part": "chain", "seed": seed, "lo": i, "hi": min(m, i + 25)} for i in range(0, m, 25)]
     specs += [{"part": "rewrap", "seed": seed, "lo": i, "hi": i + 50} for i in range(0, 200 if tier == "quick" else 2000, 50)]
+    specs += [{"part": "forkbuffering", "seed": seed, "i": i} for i in range(4 if tier == "quick" else 20)]
     specs += [{"part": "forkwrite", "seed": seed, "i": i} for i in range(8 if tier == "quick" else 60)]
     specs += [{"part": "subprocess", "seed": seed, "i": i} for i in range(6 if tier == "quick" else 60)]
     specs += [{"part": "race", "seed": seed, "i": i, "tier": tier} for i in range(16 if tier == "quick" else 200)]
@@ -410,6 +411,75 @@ def part_race(spec, res):
         res["sample"] = {"part": "race", "callers": ncallers, "outcome": outcome, "baseline_events": base["events"]}
 
 
+def one_forkbuffering(seed, i, res):
+    """Before any destination exists eliot buffers messages (under a lock of its own). The process forks its worker while another
+    thread is in the middle of such a logging call; the single-threaded child must still be able to log - into a destination it
+    adds itself."""
+    import signal
+    import sys as _sys
+    if _output.Logger._destinations._any_added:
+        res["inconclusive"] = "destinations had already been added in this process"
+        return
+    logdir = tempfile.mkdtemp(prefix="vf-c06fb-")
+    gate, inside = threading.Event(), threading.Event()
+    problems = []
+    try:
+        def background():
+            def tracer(frame, event, arg):
+                # parks the thread at the entry of the library's delivery function, i.e. in the middle of its logging call
+                if event == "call" and frame.f_code.co_name == "_send" and frame.f_code.co_filename.endswith("_output.py"):
+                    inside.set()
+                    gate.wait(120)
+                    return None
+                return tracer
+            _sys.settrace(tracer)
+            try:
+                log_message(message_type="fb:background", nid=1)
+            finally:
+                _sys.settrace(None)
+        t = threading.Thread(target=background, name="early-logger")
+        t.start()
+        if not inside.wait(60):
+            res["inconclusive"] = "the background thread never reached the output stage"
+        pid = os.fork()
+        if pid == 0:
+            code = 0
+            try:
+                signal.signal(signal.SIGALRM, lambda *_: os._exit(17))
+                signal.alarm(90)
+                log_message(message_type="fb:child-early", nid=10)
+                f = open(os.path.join(logdir, "child.log"), "ab")
+                add_destinations(FileDestination(file=f))
+                with start_action(action_type="fb:child", nid=11):
+                    log_message(message_type="fb:in-child", nid=12)
+                f.close()
+            except BaseException:
+                code = 3
+            finally:
+                os._exit(code)
+        _, status = os.waitpid(pid, 0)
+        gate.set()
+        t.join()
+        if os.WIFEXITED(status) and os.WEXITSTATUS(status) == 17:
+            problems.append("a worker forked while another thread of the parent was inside a (buffered) logging call never got past its own first logging call (blocked for 90 s as the only thread of its process)")
+        elif not os.WIFEXITED(status) or os.WEXITSTATUS(status) != 0:
+            problems.append("the forked worker ended with wait status %r" % (status,))
+        else:
+            with open(os.path.join(logdir, "child.log"), "rb") as rf:
+                nids = [json.loads(l).get("nid") for l in rf.read().split(b"\n") if l]
+            if sorted(x for x in nids if x is not None and x >= 10) != [10, 11, 12]:
+                problems.append("the forked worker's own log holds nids %s, expected its three messages 10, 11, 12" % (nids,))
+    finally:
+        gate.set()
+        shutil.rmtree(logdir, ignore_errors=True)
+    res["evals"] += 1
+    c = res["counters"]
+    c["forks_while_a_thread_is_buffering"] = c.get("forks_while_a_thread_is_buffering", 0) + 1
+    res["nontrivial"].append(h(["forkbuffering", i]))
+    if problems:
+        res["violations"].append({"msg": problems[0], "mech": None, "detail": {"part": "forkbuffering", "problems": problems[:4]}})
+
+
 def one_rewrap(seed, i, res):
     """(a) A callable that was already made with preserve_context is handed to preserve_context again under ANOTHER action (a
     generic submit-to-pool helper that always preserves): both actions get their eliot:remote_task child. (b) Ids serialized
@@ -615,7 +685,9 @@ def one_chain(seed, i, res):
 
 def run_case(spec):
     res = {"evals": 0, "nontrivial": [], "counters": {}, "violations": [], "sample": None, "sets": {"interleavings": [], "preemption_lines": []}}
-    if spec["part"] == "rewrap":
+    if spec["part"] == "forkbuffering":
+        one_forkbuffering(spec["seed"], spec["i"], res)
+    elif spec["part"] == "rewrap":
         for i in range(spec["lo"], spec["hi"]):
             one_rewrap(spec["seed"], i, res)
     elif spec["part"] == "forkwrite":
